@@ -75,18 +75,21 @@ def r1(prog, rep):
 
 def r2(tree, rep):
     cm = tree.func(MGR, "Manager", "connector_connection_made")
-    g = build(cm)
-    rt = [t for t in g.nodes(lambda s: isinstance(s, ast.If)) if isinstance(g.stmt[t].test, ast.Compare) and is_self_attr(g.stmt[t].test.left, "_my_role")
-          and dotted(g.stmt[t].test.comparators[0]) == "LEADER"]
+    g = build(cm, split=True)
+    leader = cmp_atom(lambda e: is_self_attr(e, "_my_role"), lambda e: dotted(e) == "LEADER", (ast.Eq, ast.Is), (ast.NotEq, ast.IsNot))
     gc = g.call_nodes(lambda c: dotted(c.func) == "self._traffic.got_connection")
     mk = g.call_nodes(lambda c: dotted(c.func) == "TrafficTimer")
-    ok = len(rt) == 1 and len(gc) == 1 and len(mk) == 1 and not g.guarded_by(rt, gc, 'T') \
-        and g.must_pass(gc, start=g.branch_targets(rt[0], 'T'), to=[g.exit], explicit_only=True)
+    n_lead, always = g.when_must_pass(leader, True, gc)
+    # only the leader runs a timer; as leader, every path to the return tells the timer about the new connection
+    ok = len(gc) == 1 and len(mk) == 1 and n_lead > 0 and always and not g.only_when(gc + mk, leader, True)
     rep.check("C16.R2", "the leader reports every new connection to the timer (not only when the timer object is first created)", ok, site(cm, MGR),
               key="C16.R2:connection_made:got_connection", what="after a reconnect the leader no longer monitors the new connection")
     if mk:
         c = [c for c in ast.walk(g.stmt[mk[0]]) if isinstance(c, ast.Call) and dotted(c.func) == "TrafficTimer"][0]
-        rep.check("C16.R2", "the timer is wired to _signal_reconnect and _send_ping_reset_timer", [dotted(a) for a in c.args] == ["self._signal_reconnect", "self._send_ping_reset_timer"],
+        from ..dataflow import call_arg
+        names = [f.lstrip("_") for f in Program(tree).cls("TrafficTimer").attr_fields]
+        wired = [dotted(call_arg(c, i, nm)) if call_arg(c, i, nm) is not None else None for i, nm in enumerate(names[:2])]
+        rep.check("C16.R2", "the timer is wired to _signal_reconnect and _send_ping_reset_timer", wired == ["self._signal_reconnect", "self._send_ping_reset_timer"],
                   site(c, MGR), key="C16.R2:timer-wiring")
     cl = tree.func(MGR, "Manager", "connector_connection_lost")
     g = build(cl)
